@@ -77,7 +77,8 @@ func (e *Engine) backgroundAxioms(ts []*Term, mode Mode, typed []*Term) []*Term 
 	if len(seenApp["elemref"]) > 0 {
 		r, i := Var("$b_rer", I), Var("$b_ier", I)
 		app := App("elemref", I, r, i)
-		out = append(out, Forall([]*Term{r, i}, And(Eq(App("elemref_reg", I, app), r), Eq(App("elemref_idx", I, app), i)), app))
+		// injective, and an element of an allocated region is not at address nil
+		out = append(out, Forall([]*Term{r, i}, And(Eq(App("elemref_reg", I, app), r), Eq(App("elemref_idx", I, app), i), Implies(Not(Eq(r, ConstI(I, 0))), Not(Eq(app, ConstI(I, 0))))), app))
 	}
 	// int mode: bytes read from byte arrays are in 0..255 (typing of memory contents)
 	if mode == ModeInt && os.Getenv("GOVC_NOBYTES") == "" {
